@@ -91,6 +91,9 @@ func (c16) Gen(seed uint64, tier string) Case {
 	c.Track = r.Bool(0.5)
 	nids := 1 + r.Intn(2)
 	np := 2 + r.Intn(3)
+	if tier == "thorough" {
+		np = 2 + r.Intn(5)
+	}
 	for i := 0; i < np; i++ {
 		p := genProbe(r, i, nids)
 		p.MoreAt, p.More, p.KindChange = 0, nil, ""
